@@ -1,5 +1,5 @@
 from sim.runner import Spec
-from worlds import cpool, cpool_island
+from worlds import cpool, cpool_island, rpool
 
 
 class CPoolSpec(Spec):
@@ -9,12 +9,15 @@ class CPoolSpec(Spec):
     shrink_groups = (('nclients', 'client_tenant', ()),)
     wall_cap = {'quick': 1200, 'thorough': 7200}
     strata = {
-        'quick': [('core', 5), ('nofault', 3), ('cancel', 1), ('poolfault', 1)],
-        'thorough': [('core', 5), ('nofault', 3), ('cancel', 1), ('poolfault', 1)],
+        'quick': [('core', 5), ('nofault', 3), ('cancel', 1), ('poolfault', 1),
+                  ('remote', 3), ('remote_nofault', 2), ('remote_cancel', 1)],
+        'thorough': [('core', 5), ('nofault', 3), ('cancel', 1), ('poolfault', 1),
+                     ('remote', 3), ('remote_nofault', 2), ('remote_cancel', 1)],
     }
-    runs = {'quick': 40000, 'thorough': 1500000}
+    runs = {'quick': 64000, 'thorough': 2400000}
     components = {
-        'real': ['edb/server/compiler_pool/pool.py (AbstractPool, BaseWorker, Worker, BaseLocalPool, FixedPool, SimpleAdaptivePool, MultiTenantPool, MultiTenantWorker)',
+        'real': ['edb/server/compiler_pool/pool.py (AbstractPool, BaseWorker, Worker, BaseLocalPool, FixedPool, SimpleAdaptivePool, MultiTenantPool, MultiTenantWorker, RemotePool, RemoteWorker)',
+                 'edb/server/compiler_pool/server.py (MultiSchemaPool, Worker, ClientSchema/PickledState diffing, CompilerServerProtocol) in the remote strata',
                  'edb/server/compiler_pool/queue.py', 'edb/server/compiler_pool/state.py',
                  'edb/server/compiler_pool/amsg.py (Server, HubProtocol, HubConnection, MessageStream)',
                  'edb/server/compiler_pool/worker.py and multitenant_worker.py (one module instance per simulated process)',
@@ -22,9 +25,13 @@ class CPoolSpec(Spec):
                  'edb.common.{debug,lru,...}, edb.server.{args,defines,metrics}, edb.pgsql.params'],
         'stub': cpool_island.STUB_DESCRIPTIONS,
         'model': ['simulated server state: versioned tokens per tenant/database; template process respawn policy'],
-        'not_covered': ['RemotePool, compiler_pool/server.py (remote compiler server)', 'worker_proc.main() fork/supervise loop (modelled by the simulator)'],
+        'not_covered': ['crash and restart of the remote compiler server process itself (its workers and its client links do crash)',
+                        'server.py: MetricsProtocol, server_main()/click entry point',
+                        'worker_proc.main() fork/supervise loop (modelled by the simulator)'],
     }
-    rule = ('one run = one seeded world (pool kind fixed/adaptive/multitenant, 1-3 workers, 1-3 tenants, 1-3 databases, 1-5 '
+    rule = ('remote strata: 1-3 server instances each with a RemotePool, one remote compiler server (MultiSchemaPool), 1-3 '
+            'multitenant workers, simulated links (latency, fragmentation, drops, refused reconnects); E3 is checked on both hops. '
+            'Other strata: one run = one seeded world (pool kind fixed/adaptive/multitenant, 1-3 workers, 1-3 tenants, 1-3 databases, 1-5 '
             'concurrent clients x 2-11 requests, state mutations between requests, drawn service latencies, fault kinds enabled '
             'per run); oracles E1 (echo of what the compiler entry point received vs what the caller passed), E2 (errors '
             'attributable to injected faults), E3 (server belief == worker globals) after every completed call; non-trivial = at '
@@ -37,6 +44,8 @@ class CPoolSpec(Spec):
     ]
 
     def run_world(self, tape, stratum, mutant=None, record=False, **kw):
+        if stratum.startswith('remote'):
+            return rpool.run(tape, stratum=stratum, mutant=mutant, record=record)
         return cpool.run(tape, stratum=stratum, mutant=mutant, record=record)
 
 
@@ -52,6 +61,112 @@ PF = 'edb/server/compiler_pool/pool.py'
 WF = 'edb/server/compiler_pool/worker.py'
 MF = 'edb/server/compiler_pool/multitenant_worker.py'
 WP = 'edb/server/compiler_pool/worker_proc.py'
+
+SF = 'edb/server/compiler_pool/server.py'
+REMOTE = ['remote', 'remote_nofault', 'remote_cancel']
+
+_F4_NEW = """            if sync_state is not None:
+                if isinstance(exc, state.FailedStateSync):
+                    # A local worker has applied nothing; a remote compiler
+                    # server has applied the state itself before one of its
+                    # own workers failed to.  Either way, resend all next.
+                    sync_state(uncertain=True)
+                else:
+                    sync_state()
+"""
+_F4_OLD = """            if (sync_state is not None and
+                    not isinstance(exc, state.FailedStateSync)):
+                sync_state()
+"""
+_F1A_NEW = """        # Take the client's state as of this very request, before anything is
+        # awaited: by the time the workers are ready and one is available,
+        # later requests of the same client may have synced newer state.
+        client_schema = self._clients[client_id]
+        await self._ready_evt.wait()
+        worker = await self._acquire_worker(
+            weighter=functools.partial(self._weighter, client_id)
+        )
+        try:
+            diff = client_schema
+"""
+_F1A_OLD = """        worker = await self._acquire_worker(
+            weighter=functools.partial(self._weighter, client_id)
+        )
+        try:
+            diff = client_schema = self._clients[client_id]
+"""
+_F1A_LATE_READ_ONLY = """        await self._ready_evt.wait()
+        worker = await self._acquire_worker(
+            weighter=functools.partial(self._weighter, client_id)
+        )
+        try:
+            diff = client_schema = self._clients[client_id]
+"""
+_F1B_NEW = """            if method_name != "__init_server__" and not is_client_call:
+"""
+_F1B_OLD = """            if method_name != "__init_server__":
+"""
+_F2A_NEW = """        # Only the call that is syncing state may end the sync.
+        if self._sync_lock_owner is asyncio.current_task():
+            self._sync_lock_owner = None
+            self._sync_lock.release()
+"""
+_F2A_OLD = """        if self._sync_lock.locked():
+            self._sync_lock.release()
+"""
+_F2B_NEW = """        await self._sync_lock.acquire()
+        try:
+            preargs, callback = await super()._compute_compile_preargs(*args)
+        except BaseException:
+            self._sync_lock.release()
+            raise
+        if callback:
+            # held until _release_worker() of this call
+            self._sync_lock_owner = asyncio.current_task()
+        else:
+            self._sync_lock.release()
+        return preargs, callback
+"""
+_F2B_OLD = """        preargs, callback = await super()._compute_compile_preargs(*args)
+        if callback:
+            del preargs, callback
+            await self._sync_lock.acquire()
+            preargs, callback = await super()._compute_compile_preargs(*args)
+            if not callback:
+                self._sync_lock.release()
+        return preargs, callback
+"""
+_F2B_NO_WAIT = """        preargs, callback = await super()._compute_compile_preargs(*args)
+        if callback:
+            del preargs, callback
+            await self._sync_lock.acquire()
+            try:
+                preargs, callback = await super()._compute_compile_preargs(*args)
+            except BaseException:
+                self._sync_lock.release()
+                raise
+            if callback:
+                self._sync_lock_owner = asyncio.current_task()
+            else:
+                self._sync_lock.release()
+        return preargs, callback
+"""
+_F3A_NEW = """                worker.set_client_schema(client_id, client_schema)
+                if method_name == "compile":
+                    # ... and it may have replaced the worker's last
+                    # transaction state with one we know nothing about.
+                    worker._last_pickled_state = None
+                exc = RuntimeError(
+"""
+_F3A_OLD = """                exc = RuntimeError(
+"""
+_F3B_NEW = """            worker._last_pickled_state = None
+            resp = await worker.call(
+                "compile_in_tx",
+"""
+_F3B_OLD = """            resp = await worker.call(
+                "compile_in_tx",
+"""
 
 _OR_NEW_1 = """                            user_schema_pickle=(
                                 worker_db.user_schema_pickle
@@ -97,7 +212,10 @@ MUTANTS = [
 
         if global_schema is not None:
             global_schema_unpacked = pickle.loads(global_schema)
-""")]},
+"""),
+                 # (since d5d69e8 a failed sync makes the server forget its record, which heals a
+                 # half-applied sync as well: the two fixes are reverted together)
+                 (PF, _F4_NEW, _F4_OLD)]},
     {'name': 'revert_fix_unread_request_acked', 'reverts': 'C17-unread-request-acked', 'strata': ['core'],
      'patches': [(WP, """                try:
                     raise state.FailedStateSync(
@@ -137,10 +255,9 @@ MUTANTS = [
 """)]},
     # --- other realistic breakages (DESIGN.md appendix B) -------------------
     {'name': 'ack_on_failed_state_sync',
-     'patches': [(PF, """            if (sync_state is not None and
-                    not isinstance(exc, state.FailedStateSync)):
-                sync_state()""", """            if sync_state is not None:
-                sync_state()""")]},
+     'patches': [(PF, _F4_NEW, """            if sync_state is not None:
+                sync_state()
+""")]},
     {'name': 'never_ack_on_success',
      'patches': [(PF, """        if status == 0:
             if sync_state is not None:
@@ -204,7 +321,43 @@ MUTANTS = [
             # Since we know that this particular worker already has the""",
                   """        if worker._last_pickled_state is not None:
             # Since we know that this particular worker already has the""")]},
+    # --- remote mode: RemotePool <-> compiler_pool/server.py <-> multitenant workers ---------
+    {'name': 'revert_fix_remote_request_state', 'reverts': 'C17-remote-request-state', 'strata': REMOTE,
+     'patches': [(SF, _F1A_NEW, _F1A_OLD), (SF, _F1B_NEW, _F1B_OLD)]},
+    {'name': 'revert_fix_remote_sync_lock', 'reverts': 'C17-remote-sync-lock', 'strata': REMOTE,
+     'patches': [(PF, _F2A_NEW, _F2A_OLD), (PF, _F2B_NEW, _F2B_OLD)]},
+    {'name': 'revert_fix_remote_unserializable_result', 'reverts': 'C17-remote-unserializable-result',
+     'strata': ['remote', 'remote_cancel'], 'patches': [(SF, _F3A_NEW, _F3A_OLD)]},
+    {'name': 'revert_fix_remote_last_state', 'reverts': 'C17-remote-reuse-last-state',
+     'strata': ['remote', 'remote_cancel'], 'patches': [(SF, _F3B_NEW, _F3B_OLD)]},
+    {'name': 'revert_fix_failed_sync_uncertain', 'reverts': 'C17-remote-failed-sync', 'strata': ['remote', 'remote_cancel'],
+     'patches': [(PF, _F4_NEW, _F4_OLD)]},
+    # the two halves of the request-state fix, one at a time
+    {'name': 'remote_server_reads_client_state_after_wait', 'strata': REMOTE,
+     'patches': [(SF, _F1A_NEW, _F1A_LATE_READ_ONLY)]},
+    {'name': 'remote_server_gate_lets_requests_overtake', 'strata': REMOTE,
+     'patches': [(SF, _F1B_NEW, _F1B_OLD), (SF, """        client_schema = self._clients[client_id]
+        await self._ready_evt.wait()
+""", """        client_schema = self._clients[client_id]
+""")]},
+    # the two halves of the sync-lock fix
+    {'name': 'remote_any_call_ends_the_sync', 'strata': REMOTE, 'patches': [(PF, _F2A_NEW, _F2A_OLD)]},
+    {'name': 'remote_bare_call_does_not_wait_for_sync', 'strata': REMOTE, 'patches': [(PF, _F2B_NEW, _F2B_NO_WAIT)]},
+    {'name': 'remote_server_sync_ignores_database_config', 'strata': REMOTE,
+     'patches': [(SF, """            if database_config is not None:
+                updates["database_config"] = database_config
+""", """""")]},
+    {'name': 'remote_server_acks_failed_worker_sync', 'strata': ['remote', 'remote_cancel'],
+     'patches': [(SF, """                if not isinstance(exc, state_mod.FailedStateSync):
+                    worker.set_client_schema(client_id, client_schema)
+""", """                worker.set_client_schema(client_id, client_schema)
+""")]},
+    {'name': 'remote_client_diff_misses_global_schema', 'strata': REMOTE,
+     'patches': [(SF, """        if self.global_schema is not other.global_schema:
+            global_schema = self.global_schema
+""", """""")]},
 ]
 SPEC.mutants = [m for m in MUTANTS if not m.get('equivalent_ok')]
 SPEC.quick_mutants = ['revert_fix_falsy_or', 'revert_fix_partial_sync', 'revert_fix_last_state_forgotten',
-                      'never_ack_on_success', 'global_schema_never_resent']
+                      'never_ack_on_success', 'global_schema_never_resent',
+                      'revert_fix_remote_request_state', 'revert_fix_remote_sync_lock', 'revert_fix_remote_last_state']
